@@ -106,7 +106,7 @@ STORAGE_GROUP = ["SurfaceSelector_opposite_surface", "SurfaceSelector_correspond
 def storage_jobs(Job, cfg=CFG_NDEBUG, tier="quick"):
     def J(name, entry, enforce, **kw):
         return Job("D_%s_%s" % (name, cfg[0]), "harness/dfs_storage.c", entry, enforce=enforce, defines=list(cfg[1]),
-                   extract=ext(STORAGE_GROUP), tier=tier, **kw)
+                   extract=ext(STORAGE_GROUP + ["connect_drives"]), tier=tier, **kw)
     return [J("opposite_surface", "h_opposite", ["SurfaceSelector_opposite_surface"]),
             J("next_device", "h_next_device", ["SurfaceSelector_corresponding_side_of_next_device"]),
             J("surface_next", "h_next", ["SurfaceSelector_next"]),
@@ -240,3 +240,11 @@ def sdf_jobs(Job, cfg=CFG_NDEBUG, tier="quick"):
 
 def c04_extra(Job, tier):
     return mmb_jobs(Job) + sdf_jobs(Job)
+
+
+# ---- C16 extra: connect_drives ---------------------------------------------------------------------------------
+def c16_extra(Job, tier):
+    cfg = CFG_NDEBUG
+    return [Job("D_connect_drives_%s" % cfg[0], "harness/dfs_storage.c", "h_connect", enforce=["connect_drives"],
+                replace=["check_sequence_fits", "SurfaceSelector_next"], loops=True, defines=list(cfg[1]),
+                extract=ext(STORAGE_GROUP + ["connect_drives"]), tier="quick", cover=True, solver="portfolio", timeout=900)]
